@@ -642,6 +642,9 @@ Proof.
   vm_compute. discriminate.
 Qed.
 
+(* Print Assumptions lists the axioms of the whole cone of a theorem: g_prep_iterable_eq, g_prep_dict_eq, g_prep_tuple_eq and
+   g_hash_body_eq are used by g_hash_eq / g_hash_body_unique, g_deephash_eq and g_deephash_with_eq by the T_C06_* corollaries,
+   and are covered by the blocks printed for those (each command costs about half a second of the run). *)
 Print Assumptions g_KEY_TO_VAL_STR_eq.
 Print Assumptions g_INDEX_VS_ATTRIBUTE_eq.
 Print Assumptions g_prep_ipranges_eq.
@@ -652,14 +655,8 @@ Print Assumptions g_prep_number_x_eq.
 Print Assumptions g_prep_path_eq.
 Print Assumptions g_prep_date_eq.
 Print Assumptions g_prep_datetime_eq.
-Print Assumptions g_prep_iterable_eq.
-Print Assumptions g_prep_dict_eq.
-Print Assumptions g_prep_tuple_eq.
-Print Assumptions g_hash_body_eq.
 Print Assumptions g_hash_eq.
 Print Assumptions g_hash_body_unique.
-Print Assumptions g_deephash_eq.
-Print Assumptions g_deephash_with_eq.
 Print Assumptions T_C06_eqv_deephash_partial.
 Print Assumptions T_C06_eqv_hash.
 Print Assumptions T_C06_memo_transparent_partial.
